@@ -484,6 +484,99 @@ def check_join(case):
     return {'nt': rep_both, 'cls': ['join:' + case['kind'], 'composite' if case['composite'] else 'plain-index', 'overlap:' + case['index_overlap']]}
 
 
+# ---------------------------------------------------------------------------------------------
+# joins keyed on index depths and / or several columns, listed in any order
+
+@st.composite
+def _side_spec(draw, width):
+    """(depth list, column list): the key of a row is its values at those depths, then at those columns, in the order listed."""
+    nd = draw(st.sampled_from([w for w in (width, 0, 1, 2) if w <= width]))
+    depths = list(draw(st.permutations([0, 1, 2])))[:nd]
+    cols = list(draw(st.permutations(['a', 'b', 'c'])))[:width - nd]
+    return {'depths': depths, 'cols': cols, 'scalar': draw(st.booleans())}
+
+
+@st.composite
+def join_key_cases(draw):
+    kind = draw(st.sampled_from(['inner', 'left', 'right', 'outer']))
+    width = draw(st.sampled_from([2, 1, 3, 2]))
+    sides = [draw(_side_spec(width)), draw(_side_spec(width))]
+    strs, consolidate = draw(st.booleans()), draw(st.booleans())
+    pool = ['x', 'y'] if strs else [1, 2]
+    nl, nr = draw(st.sampled_from([4, 3, 5, 2, 6, 1])), draw(st.sampled_from([4, 3, 5, 2, 6, 1]))
+    rows = [[tuple(draw(st.sampled_from(pool)) for _ in range(6)) for _ in range(n)] for n in (nl, nr)]
+    return {'kind': kind, 'width': width, 'sides': sides, 'strs': strs, 'consolidate': consolidate, 'rows': rows}
+
+
+def _side_frame(rows, strs, consolidate, pay, name):
+    # each row: three index depths (d0, d1, d2), a fourth depth making the label unique, and columns a, b, c and a payload
+    rows = sorted(rows)
+    n = len(rows)
+    kdt = '<U1' if strs else np.int64
+    labels = [(r[0], r[1], r[2], i) for i, r in enumerate(rows)]
+    ix = sf.IndexHierarchy.from_labels(labels)
+    cols = [np.array([r[3 + q] for r in rows], dtype=kdt) for q in range(3)] + [np.arange(n) * 10 + pay]
+    return _frame(cols, ['a', 'b', 'c', 'v'], ix, consolidate, name=name), rows
+
+
+def _side_key(spec, row):
+    return tuple(row[d] for d in spec['depths']) + tuple(row[3 + 'abc'.index(c)] for c in spec['cols'])
+
+
+def _side_kwargs(spec, side):
+    kw = {}
+    if spec['depths']:
+        kw[side + '_depth_level'] = spec['depths'][0] if (len(spec['depths']) == 1 and spec['scalar']) else list(spec['depths'])
+    if spec['cols']:
+        kw[side + '_columns'] = spec['cols'][0] if (len(spec['cols']) == 1 and spec['scalar']) else list(spec['cols'])
+    return kw
+
+
+def check_join_keys(case):
+    (left, lrows), (right, rrows) = (_side_frame(case['rows'][0], case['strs'], case['consolidate'], 1, 'left'),
+                                     _side_frame(case['rows'][1], case['strs'], case['consolidate'], 5, 'right'))
+    ls, rs = case['sides']
+    kw = dict(fill_value=-1, left_template='l_{}', right_template='r_{}')
+    kw.update(_side_kwargs(ls, 'left'))
+    kw.update(_side_kwargs(rs, 'right'))
+    r = lib(lambda: getattr(left, 'join_' + case['kind'])(right, **kw))
+    desc = 'join_%s(%s)' % (case['kind'], ', '.join('%s=%r' % kv for kv in sorted(kw.items()) if not kv[0].endswith('template')))
+    if isinstance(r, Raised):
+        raise Failure('raised:%s' % r.cls, '%s raised %r' % (desc, r.exc), r.where)
+    want = []
+    ml, mr = set(), set()
+    for i, a in enumerate(lrows):
+        for j, b in enumerate(rrows):
+            if _side_key(ls, a) == _side_key(rs, b):
+                want.append((i * 10 + 1, j * 10 + 5))
+                ml.add(i)
+                mr.add(j)
+    if case['kind'] in ('left', 'outer'):
+        want.extend((i * 10 + 1, -1) for i in range(len(lrows)) if i not in ml)
+    if case['kind'] in ('right', 'outer'):
+        want.extend((-1, j * 10 + 5) for j in range(len(rrows)) if j not in mr)
+    gc = [str(x) for x in obs.labels_of(r.columns)]
+    if 'l_v' not in gc or 'r_v' not in gc:
+        raise Failure('join-columns', '%s columns %s' % (desc, gc))
+    got = sorted((int(a), int(b)) for a, b in zip(arr_list(r['l_v'].values), arr_list(r['r_v'].values)))
+    if got != sorted(want):
+        raise Failure('join-rows', '%s: matched (left payload, right payload) pairs %s expected %s; left key rows %s, right key rows %s' % (
+            desc, short(got, 300), short(sorted(want), 300), short([_side_key(ls, a) for a in lrows], 200), short([_side_key(rs, b) for b in rrows], 200)))
+    # the key columns carried into the result hold the values of the rows paired
+    lcols = {nm: arr_list(r['l_' + nm].values) for nm in 'abc'}
+    for q, (a, b) in enumerate(zip(arr_list(r['l_v'].values), arr_list(r['r_v'].values))):
+        if int(a) >= 0:
+            src = lrows[int(a) // 10]
+            for nm in 'abc':
+                if not eq(lcols[nm][q], src[3 + 'abc'.index(nm)]):
+                    raise Failure('join-value', '%s: result row %d column l_%s holds %r, the left row holds %r' % (desc, q, nm, lcols[nm][q], src[3 + 'abc'.index(nm)]))
+    unordered = (ls['depths'] != sorted(ls['depths'])) or (rs['depths'] != sorted(rs['depths']))
+    cls = ['joinkeys:' + case['kind'], 'width:%d' % case['width'], 'depths:%d/%d' % (len(ls['depths']), len(rs['depths']))]
+    if unordered:
+        cls.append('depths-not-ascending')
+    return {'nt': bool(ml) and (len(want) > len(ml) or case['width'] > 1), 'cls': cls}
+
+
 def tag(case, f):
     # pivot skips the aggregation function for groups of one row
     if f.kind == 'pivot-value' and case.get('func') in ('len', 'std') and 'aggregates 1 source rows' in f.detail:
@@ -505,4 +598,6 @@ SUBS = [
     Sub('stack', stack_cases(), check_stack, quick=1600, thorough=8000, tag=tag, rule='pivot_stack then pivot_unstack restores all cells'),
     Sub('pivot', pivot_cases(), check_pivot, quick=3200, thorough=24000, tag=tag, rule='pivot vs group-aggregate reference'),
     Sub('join', join_cases(), check_join, quick=4000, thorough=32000, tag=tag, rule='joins vs nested-loop reference (multisets of value rows)'),
+    Sub('join_keys', join_key_cases(), check_join_keys, quick=2000, thorough=16000, tag=tag,
+        rule='joins keyed on index depths and / or several columns, listed in any order, vs nested-loop reference on the key tuples'),
 ]
